@@ -214,6 +214,10 @@ func (s *PfcpServer) receiver(wg *sync.WaitGroup) {
 		}
 
 		s.log.Tracef("receiver reads message(len=%d)", n)
+		if n == 0 {
+			// an empty datagram is not a PFCP message; an empty ReceivePacket means "receiver closed" to the main loop
+			continue
+		}
 		msgBuf := make([]byte, n)
 		copy(msgBuf, buf)
 		s.rcvCh <- ReceivePacket{
